@@ -136,6 +136,106 @@ pub fn run_include(tree: &Tree) -> String {
     })
 }
 
+/// C14, on the implementation alone: writing every relative include pattern as the equivalent
+/// ABSOLUTE pattern (`<dir of the including file>/<pattern>`, resolved by hand) must not change what
+/// is parsed, apart from the absolute prefix in the file names
+pub fn include_abs_oracle(tree: &Tree) -> Option<String> {
+    /// spellings of one file differ with the way it was reached (`a/../a/x.slt`): compared after
+    /// resolving `component/../` and `./` lexically
+    fn norm(s: &str) -> String {
+        let up = regex::Regex::new(r#"[^/\s":(]+/\.\./"#).unwrap();
+        let mut cur = s.replace("/./", "/");
+        loop {
+            let mut changed = false;
+            let next = up
+                .replace(&cur, |c: &regex::Captures| {
+                    if &c[0] == "../../" {
+                        c[0].to_string()
+                    } else {
+                        changed = true;
+                        String::new()
+                    }
+                })
+                .to_string();
+            if !changed {
+                return next;
+            }
+            cur = next;
+        }
+    }
+    fn describe(dir: &Path, root: &str) -> Vec<String> {
+        let described = describe_raw(dir, root);
+        described.iter().map(|s| norm(s)).collect()
+    }
+    fn describe_raw(dir: &Path, root: &str) -> Vec<String> {
+        let prefix = format!("{}/", dir.to_string_lossy());
+        match catch_unwind(AssertUnwindSafe(|| parse_file::<DefaultColumnType>(root))) {
+            Err(_) => vec!["panic".into()],
+            Ok(Err(e)) => vec![format!("err {} {}", perr_kind(&e.kind()), e.location().to_string().replace(&prefix, ""))],
+            Ok(Ok(recs)) => recs
+                .iter()
+                .map(|r| {
+                    let loc = rec_loc(r).map(|l| l.to_string().replace(&prefix, "")).unwrap_or_default();
+                    match r {
+                        // the pattern text differs by construction
+                        Record::Include { .. } => format!("include @ {}", loc),
+                        _ => format!("{:?}", r).replace(&prefix, ""),
+                    }
+                })
+                .collect(),
+        }
+    }
+    let rel = with_scratch(tree, |dir| describe(dir, &tree.root));
+    if rel == vec!["panic".to_string()] {
+        return None;
+    }
+    // the variant is materialised in its own directory, whose name the patterns carry
+    let probe = Tree { files: vec![], root: tree.root.clone() };
+    let abs = with_scratch(&probe, |dir| {
+        let d = dir.to_string_lossy().to_string();
+        let files: Vec<(String, String)> = tree
+            .files
+            .iter()
+            .map(|(p, c)| {
+                let parent = match p.rfind('/') {
+                    Some(i) => format!("{}/{}", d, &p[..i]),
+                    None => d.clone(),
+                };
+                let text: Vec<String> = c
+                    .split('\n')
+                    .map(|l| {
+                        let t: Vec<&str> = l.split_whitespace().collect();
+                        if t.len() == 2 && t[0] == "include" && !t[1].starts_with('/') && l.starts_with("include") {
+                            // (glob drops a leading `./` from what it yields: dropped here as well)
+                            let mut pat = t[1];
+                            while let Some(rest) = pat.strip_prefix("./") {
+                                pat = rest;
+                            }
+                            format!("include {}/{}", parent, pat)
+                        } else {
+                            l.to_string()
+                        }
+                    })
+                    .collect();
+                (p.clone(), text.join("\n"))
+            })
+            .collect();
+        let t2 = Tree { files, root: tree.root.clone() };
+        t2.materialize(dir);
+        describe(dir, &tree.root)
+    });
+    if rel != abs {
+        let k = rel.iter().zip(abs.iter()).position(|(a, b)| a != b).unwrap_or(rel.len().min(abs.len()));
+        return Some(format!(
+            "C14|with every include pattern written as the equivalent absolute path the parse differs at record {}: relative {:?} / absolute {:?}",
+            k,
+            rel.get(k).map(|s| s.chars().take(160).collect::<String>()),
+            abs.get(k).map(|s| s.chars().take(160).collect::<String>())
+        ));
+    }
+    None
+}
+
 // ------------------------------------------------------------------------------------------
 
 #[derive(Clone, Debug, Default)]
